@@ -91,7 +91,7 @@ func RunC12(d *Driver) *Report {
 	if Thorough() {
 		hl, bl, pl = 5, 3, 3
 	}
-	r.Rule = fmt.Sprintf("exhaustive: all histories of length <= %d over set/del on keys a,b,c (through two aliases, dot and index spelling chosen by the PRNG) with print/len/has observed after every step and every missing/present key looked up at the end; plus every range loop with a prefix history of length <= %d and a loop body of length <= %d over set/del of fixed keys and of the loop key. Non-trivial = distinct history that contains at least one operation", hl, pl, bl)
+	r.Rule = fmt.Sprintf("exhaustive: all histories of length <= %d over set/del on keys a,b,c (through two aliases, dot and index spelling chosen by the PRNG) with print/len/has observed after every step and every missing/present key looked up at the end; plus every range loop with a prefix history of length <= %d and a loop body of length <= %d over set/del of fixed keys and of the loop key. ; copies made by array repetition ([m]*3) under every history of length <= 3 on one copy, compared with the evaluator model (original and siblings untouched, key order kept); == and != on all pairs of 46 maps over keys a,b,c with values 1,2 in both insertion orders against 'same keys, equal values'. Non-trivial = distinct history that contains at least one operation", hl, pl, bl)
 	r.Exhaustive = true
 	n := 0
 	alpha := c12Mutators(&n)
@@ -195,6 +195,81 @@ func RunC12(d *Driver) *Report {
 			wire.WriteString("] print len")
 			run("range", src.String(), wire.String(), func(a string) string { return foldGet(a) })
 			r.Hist("range_body_len", strconv.Itoa(len(body)))
+		}
+	}
+	// 3. copies made by array repetition are independent maps: operations on one copy (through two aliases)
+	// leave the original and the sibling copies alone, in content AND key order
+	parts := []string{"class", "trace", "globals"}
+	for _, h := range c12Histories(min(hl, 3), alpha) {
+		src := "orig := {a:1 b:2 c:3}\narr := [orig] * 3\nm := arr[0]\nm2 := m\n"
+		for _, op := range h {
+			src += op.evy(rng, "")
+		}
+		src += "print orig arr\nfor k := range arr[1]\n    print k arr[1][k]\nend\nfor k := range orig\n    print k\nend\nprint (len arr[2]) (len orig) (arr[1] == orig) (arr[0] == orig)\n"
+		evalStream(r, d, "copies", src, RunOpts{}, parts, true, nil)
+	}
+	// 4. equality: two maps are equal iff they have the same keys with equal values, in any order
+	type kv struct {
+		k string
+		v int
+	}
+	var maps [][]kv
+	for _, a := range []int{0, 1, 2} {
+		for _, b := range []int{0, 1, 2} {
+			for _, c := range []int{0, 1, 2} {
+				var m []kv
+				for i, v := range []int{a, b, c} {
+					if v != 0 {
+						m = append(m, kv{c12Keys[i], v})
+					}
+				}
+				maps = append(maps, m)
+				if len(m) > 1 {
+					rev := make([]kv, len(m))
+					for i := range m {
+						rev[len(m)-1-i] = m[i]
+					}
+					maps = append(maps, rev)
+				}
+			}
+		}
+	}
+	lit := func(m []kv) string {
+		if len(m) == 0 {
+			return "e"
+		}
+		p := make([]string, len(m))
+		for i, e := range m {
+			p[i] = fmt.Sprintf("%s:%d", e.k, e.v)
+		}
+		return "{" + strings.Join(p, " ") + "}"
+	}
+	same := func(a, b []kv) bool {
+		if len(a) != len(b) {
+			return false
+		}
+		for _, x := range a {
+			found := false
+			for _, y := range b {
+				found = found || (x.k == y.k && x.v == y.v)
+			}
+			if !found {
+				return false
+			}
+		}
+		return true
+	}
+	for _, m1 := range maps {
+		src := "e:{}num\n"
+		want := ""
+		for _, m2 := range maps {
+			src += "print (" + lit(m1) + " == " + lit(m2) + ") (" + lit(m1) + " != " + lit(m2) + ")\n"
+			want += fmt.Sprintf("%v %v\n", same(m1, m2), !same(m1, m2))
+		}
+		r.Count("equality:"+src, true)
+		res := RunSrc(src, RunOpts{})
+		if res.Out != want {
+			r.Violation(Case{Stream: "equality", Input: src, Real: trunc(res.Class+" "+res.Out, 600), Spec: "two maps are equal iff they have the same keys with equal values, in any insertion order:\n" + trunc(want, 600), Note: DiffAt(res.Out, want)})
 		}
 	}
 	r.DriverCalls = d.N
